@@ -461,7 +461,13 @@ void * isa_l_common_init(struct ec_backend_args *args, void *backend_sohandle,
 
     /* validate EC arguments */
     {
-        long long max_symbols = 1LL << desc->w;
+        long long max_symbols;
+        /* word sizes below one byte make the alignment unit zero (division
+         * by zero in encode); 64 and above overflow the shift below */
+        if (desc->w < 8 || desc->w >= 64) {
+            goto error;
+        }
+        max_symbols = 1LL << desc->w;
         if ((desc->k + desc->m) > max_symbols) {
             goto error;
         }
